@@ -293,15 +293,32 @@ def parallel(func, tasks, timeout_each=60, nproc=NPROC):
     out = [None] * len(tasks)
     if not tasks:
         return []
-    with ProcessPoolExecutor(max_workers=min(nproc, len(tasks))) as ex:
-        futs = {ex.submit(_worker, (func, t, timeout_each)): i for i, t in enumerate(tasks)}
-        for fu in as_completed(futs):
+    import math
+    from concurrent.futures import TimeoutError as FTimeout
+    nw = min(nproc, len(tasks))
+    deadline = timeout_each * math.ceil(len(tasks) / nw) + 60
+    ex = ProcessPoolExecutor(max_workers=nw)
+    futs = {ex.submit(_worker, (func, t, timeout_each)): i for i, t in enumerate(tasks)}
+    try:
+        for fu in as_completed(futs, timeout=deadline):
             i = futs[fu]
             try:
                 st, r = fu.result()
             except BaseException as e:  # worker died
                 st, r = 'crash', 'worker died: %r' % (e,)
             out[i] = (tasks[i], st, r)
+    except FTimeout:
+        pass
+    for i, o in enumerate(out):
+        if o is None:
+            out[i] = (tasks[i], 'timeout', None)
+    # never wait for stuck workers (a task that ignores SIGALRM, e.g. inside native code)
+    for p in list(getattr(ex, '_processes', {}).values()):
+        try:
+            p.kill()
+        except Exception:
+            pass
+    ex.shutdown(wait=False, cancel_futures=True)
     return out
 
 
